@@ -578,5 +578,11 @@ def return_cases(summary):
                 allg = tuple(guards) + tuple(facts)
                 if any(ir.negate(g) in allg for g in allg):
                     continue
+                try:
+                    from .boolalg import satisfiable
+                    if not satisfiable(("and", allg)):
+                        continue            # e.g. (a or b) & not a & not b
+                except ValueError:
+                    pass
                 out.append((allg, v, ev.line, ctx))
     return out
